@@ -133,7 +133,7 @@ func main() {
 // the caller's input buffers must not be written to (C13 "independent of earlier calls",
 // C15 "the caller's input buffer is never modified").  One `alias` line per probe.
 func (c *ctx) aliasCheck() {
-	if c.prop != "C13" && c.prop != "C15" {
+	if c.prop != "C13" && c.prop != "C15" && c.prop != "C01" {
 		return
 	}
 	pols := []*bluemonday.Policy{bluemonday.UGCPolicy(), bluemonday.StrictPolicy(), bluemonday.UGCPolicy().AddSpaceWhenStrippingTag(true)}
